@@ -144,6 +144,10 @@ type killSpec struct {
 	Sample  int    `json:"sample"`  // kill points per scenario (0 = all)
 	Double  int    `json:"double"`  // number of double-kill runs in this part
 	Windows bool   `json:"windows"` // also kill at every point between db publication and first sidecar publication
+	// InprocRestart: after a kill the follower is restarted inside the worker
+	// process instead of as a new victim process (same Replica.Restore call on the
+	// files the killed process left; saves one process start per kill run).
+	InprocRestart bool `json:"inproc_restart"`
 }
 
 type campaign struct {
@@ -153,6 +157,8 @@ type campaign struct {
 	self  string
 	ptsup string
 	runN  int
+	// restart after a kill inside this process (quick tier)
+	inprocRestart bool
 	// coverage
 	killClasses map[string]int
 }
@@ -253,9 +259,19 @@ func (c *campaign) run(tag string, count bool, kills []int, adv []int) (*runResu
 		if inc > 0 && dbExists && sidecarAtStart > 0 && sidecarAtStart < c.sc.Stages[ptr].Max && !hasL0(c.sc.Stages[ptr].Dir, sidecarAtStart+1) {
 			res.Count("restart_needs_gap_bridging", 1)
 		}
-		f, err := startProc(c.self, c.ptsup, mode, n, fol, ptlog, link, out, followMs)
-		if err != nil {
-			return nil, fmt.Errorf("start follower: %w", err)
+		var f *follower
+		if mode == "" && c.inprocRestart {
+			f = startInproc(link, out, followMs*time.Millisecond, true)
+			res.Count("restarts_in_process", 1)
+		} else {
+			var err error
+			f, err = startProc(c.self, c.ptsup, mode, n, fol, ptlog, link, out, followMs)
+			if err != nil {
+				return nil, fmt.Errorf("start follower: %w", err)
+			}
+			if inc > 0 {
+				res.Count("restarts_as_process", 1)
+			}
 		}
 		res.Logf("%s: incarnation %d mode=%s n=%d stage=%d dbExists=%v sidecar=%d", tag, inc, mode, n, ptr, dbExists, sidecarAtStart)
 		killedNow := false
@@ -444,7 +460,7 @@ func runKill(run *vf.Run, raw json.RawMessage, dir string) *vf.Result {
 		res.HarnessErr = "scenario: " + err.Error()
 		return res
 	}
-	c := &campaign{sc: sc, res: res, dir: dir, self: self, ptsup: ptsup, killClasses: map[string]int{}}
+	c := &campaign{sc: sc, res: res, dir: dir, self: self, ptsup: ptsup, killClasses: map[string]int{}, inprocRestart: s.InprocRestart}
 	// count run: the unkilled follower must converge through every stage
 	cr, err := c.run("count-run", true, nil, nil)
 	if err != nil {
